@@ -10,6 +10,10 @@ pub uninterp spec fn page_view(bytes: Seq<u8>, id: int, pagesize: int) -> Page;
 // stub U23: the map of open child-bucket handles (a recursive Rc<RefCell<..>> type); nothing in this unit touches it
 #[verifier::external_body]
 pub struct BucketMap<'b> { _p: core::marker::PhantomData<&'b ()> }
+// rule U23: `HashMap::new()` for the substituted field
+#[verifier::external_body]
+fn bucket_map_new<'b>() -> (r: BucketMap<'b>)
+{ unimplemented!() }
 #[verifier::external_body]
 pub struct Bytes<'a> { _p: core::marker::PhantomData<&'a ()> }
 // the bookkeeping invariant of the node table: every registered page names an existing node
